@@ -10,8 +10,8 @@ RANK_CH = 'AKQJT98765432'
 SUIT_CH = 'shdc'
 
 
-def load_lib(src, profile='dev'):
-    mir = mir_dump(src, profile)
+def load_lib(src, profile='dev', mir=None):
+    mir = mir or mir_dump(src, profile)
     M = mirx.load(mir, src, glob.glob(src + '/src/**/*.rs', recursive=True))
     M.profile = profile
     return M
